@@ -656,7 +656,16 @@ def depth_probe(req):
             k = "exposed" if expose else "nested"
             try:
                 raw = quiet(lambda: PythonCodeGen(parse_source(text), expose_experiment_variant_function=expose).generate())
-                row["indent_levels_" + k] = max(len(l) - len(l.lstrip("\t")) for l in raw.splitlines() if l.strip())
+                # indentation LEVELS as Python's tokenizer counts them (whatever characters the generator indents with)
+                import tokenize
+                depth = deepest = 0
+                for tok in tokenize.generate_tokens(io.StringIO(raw).readline):
+                    if tok.type == tokenize.INDENT:
+                        depth += 1
+                        deepest = max(deepest, depth)
+                    elif tok.type == tokenize.DEDENT:
+                        depth -= 1
+                row["indent_levels_" + k] = deepest
             except BaseException as e:   # noqa
                 row["indent_levels_" + k] = None
             try:
